@@ -129,7 +129,9 @@ func c04Ctx() *plush.Context {
 		if kept == nil {
 			return "", errors.New("nothing kept")
 		}
-		return kept.BlockWith(h.New())
+		// (a scope under the kept context, not under the caller's: a chain of twenty thousand scopes would
+		// make every lookup walk all of them)
+		return kept.BlockWith(kept.New())
 	})
 	ctx.Set("partialFeeder", func(name string) (string, error) {
 		if name == "ok" {
